@@ -4363,6 +4363,14 @@ KNOWN_EXT:
                 }
             }
             extensions->keyUsageFlags |= p[1];
+            if (extensions->keyUsageFlags == 0)
+            {
+                /* RFC 5280 4.2.1.3: at least one bit MUST be set. An empty
+                   keyUsage would otherwise be indistinguishable from an
+                   absent one. */
+                psTraceCrypto("Empty keyUsage extension\n");
+                return PS_PARSE_FAIL;
+            }
             p = p + len;
 # ifdef USE_ED25519
             /* Some Ed25519 test certs have an extra 0x00 at the end of the
@@ -6024,6 +6032,16 @@ int32 psX509AuthenticateCert(psPool_t *pool, psX509Cert_t *subjectCert,
     */
     while (ic)
     {
+        /*
+          A trust-anchor bundle loaded with CERT_ALLOW_BUNDLE_PARTIAL_PARSE
+          keeps the structs of certificates that failed to parse. Their
+          fields are only partially filled in; never use one as an issuer.
+        */
+        if (ic->parseStatus != PS_X509_PARSE_SUCCESS)
+        {
+            sc->authStatus = PS_CERT_AUTH_FAIL_DN;
+            return PS_CERT_AUTH_FAIL_DN;
+        }
         /*
           Certificate authority constraint only available in version 3 certs.
           Only parsing version 3 certs by default though.
